@@ -1639,3 +1639,49 @@ func (f *Frame) recordCall(st *State, name string, errVal *Term) {
 		c.heapSet(st, "G!lasterr", Store(le, k, errVal))
 	}
 }
+
+// ---------------------------------------------------------------- snapshot output stream (trusted)
+// raft.SnapshotSink.Write(p) and codec.Encoder.Encode(v) append to ONE ghost output sequence (the encoder writes to
+// the sink): item i is either the byte string written (outIsBytes(i), outBytes(i)) or the object handed to the
+// encoder (outObj(i), an interface value; its content is whatever the object holds - the persisters never modify an
+// object after encoding it). Both may fail; a failed call appends nothing. The msgpack encoding itself is not modelled.
+func (f *Frame) outAppend(st *State, isBytes bool, b *Term, obj *Term, failed *Term) {
+	c := f.c
+	lenH := c.heapGet(st, "OUT!len", ArrSort(SInt, SInt))
+	n := Select(lenH, IntLit(0))
+	c.assume(st, Ge(n, IntLit(0)))
+	kindH := c.heapGet(st, "OUT!isbytes", ArrSort(SInt, SBool))
+	bytesH := c.heapGet(st, "OUT!bytes", ArrSort(SInt, SByt))
+	objH := c.heapGet(st, "OUT!obj", ArrSort(SInt, SIfc))
+	kb := TFalse
+	if isBytes {
+		kb = TTrue
+	}
+	c.heapSet(st, "OUT!isbytes", Ite(failed, kindH, Store(kindH, n, kb)))
+	if isBytes {
+		c.heapSet(st, "OUT!bytes", Ite(failed, bytesH, Store(bytesH, n, b)))
+	} else {
+		c.heapSet(st, "OUT!obj", Ite(failed, objH, Store(objH, n, obj)))
+	}
+	c.heapSet(st, "OUT!len", Store(lenH, IntLit(0), Ite(failed, n, Add(n, IntLit(1)))))
+}
+
+func init() {
+	models["github.com/hashicorp/raft.SnapshotSink.Write"] = func(f *Frame, st *State, e *ast.CallExpr, recv *Term, args []*Term, sig *types.Signature) []*Term {
+		failed := f.c.fresh("sinkErr", SBool)
+		f.outAppend(st, true, args[0], nil, failed)
+		return []*Term{Ite(failed, IntLit(0), App("bytesLen", SInt, args[0])), Ite(failed, f.someError(), IfaceNil)}
+	}
+	// Decode(&v): v receives an arbitrary value of its type (what the stream holds is not modelled); may fail
+	models["github.com/hashicorp/consul-net-rpc/go-msgpack/codec.Decoder.Decode"] = func(f *Frame, st *State, e *ast.CallExpr, recv *Term, args []*Term, sig *types.Signature) []*Term {
+		f.forgetPointees(st, e, args, sig)
+		failed := f.c.fresh("decErr", SBool)
+		return []*Term{Ite(failed, f.someError(), IfaceNil)}
+	}
+	models["github.com/hashicorp/consul-net-rpc/go-msgpack/codec.Encoder.Encode"] = func(f *Frame, st *State, e *ast.CallExpr, recv *Term, args []*Term, sig *types.Signature) []*Term {
+		failed := f.c.fresh("encErr", SBool)
+		f.outAppend(st, false, nil, args[0], failed)
+		return []*Term{Ite(failed, f.someError(), IfaceNil)}
+	}
+}
+
